@@ -911,6 +911,15 @@ theorem accumArr_eq (size : Nat) (us : List Upd) : accumArr size us = accum (zer
   unfold accumArr
   rw [foldl_modify_toList, Array.toList_replicate]; rfl
 
+/-- computing the cells once and zipping them with a layer's values gives the same updates -/
+theorem updsOf_eq_updsZ (cellf : Coord → Coord → Option Nat) (val : Pt → Rat) (pts : List Pt) :
+    updsOf cellf val pts = updsZ (pts.map fun p => cellf p.x p.y) (pts.map val) := by
+  induction pts with
+  | nil => rfl
+  | cons p pts ih =>
+    unfold updsOf updsZ at ih ⊢
+    simp only [List.filterMap_cons, List.map_cons, List.zip_cons_cons, ih]
+
 /-! ### non-vacuity: the hypotheses are satisfiable and the conclusions are not trivially true -/
 
 def gEx : Grid := { xmin := 0, xmax := 4, nx := 4, ymin := 0, ymax := 1, ny := 1 }
